@@ -99,12 +99,12 @@ func parseSingleConstraint(c string) ([]*constraint, error) {
 	}
 
 	// Handle wildcard constraint (1.2.* or 1.x)
-	if strings.Contains(c, "*") || strings.Contains(c, "x") {
+	if isWildcardConstraint(c) {
 		return parseWildcardConstraint(c)
 	}
 
 	// Handle comparison operators
-	operators := []string{">=", "<=", "!=", "<>", ">", "<", "=", "=="}
+	operators := []string{">=", "<=", "!=", "<>", ">", "<", "==", "="}
 	for _, op := range operators {
 		if strings.HasPrefix(c, op) {
 			versionStr := strings.TrimSpace(c[len(op):])
@@ -295,6 +295,18 @@ func parseTildeConstraint(version string) ([]*constraint, error) {
 			{operator: "<", version: upperVersion},
 		}, nil
 	}
+}
+
+// isWildcardConstraint reports whether one of the dot-separated components of
+// a constraint is a wildcard (1.2.*, 1.x). A "*" or "x" that is merely part of
+// a longer word, such as a branch name (>=dev-fix-x), is not a wildcard.
+func isWildcardConstraint(c string) bool {
+	for _, part := range strings.Split(c, ".") {
+		if part == "*" || part == "x" {
+			return true
+		}
+	}
+	return false
 }
 
 // parseWildcardConstraint handles wildcard constraints (1.2.* or 1.x)
